@@ -1,1 +1,401 @@
-//! (to be filled)
+//! Plain reference representation of metric families (independent of the
+//! crate's data model) plus conversion to/from the crate's protobuf-backed
+//! `proto::MetricFamily`, a generator of adversarial families shared by the
+//! exposition checks (C04, C13, C17), and the reference gather.
+
+use prometheus::proto;
+use serde_json::{json, Value};
+
+#[derive(Clone, Copy, Debug, PartialEq, Eq, PartialOrd, Ord, Hash)]
+pub enum RType {
+    Counter,
+    Gauge,
+    Summary,
+    Untyped,
+    Histogram,
+}
+
+impl RType {
+    pub fn text(self) -> &'static str {
+        match self {
+            RType::Counter => "counter",
+            RType::Gauge => "gauge",
+            RType::Summary => "summary",
+            RType::Untyped => "untyped",
+            RType::Histogram => "histogram",
+        }
+    }
+    pub fn number(self) -> u64 {
+        match self {
+            RType::Counter => 0,
+            RType::Gauge => 1,
+            RType::Summary => 2,
+            RType::Untyped => 3,
+            RType::Histogram => 4,
+        }
+    }
+    pub fn from_number(n: u64) -> Option<RType> {
+        Some(match n {
+            0 => RType::Counter,
+            1 => RType::Gauge,
+            2 => RType::Summary,
+            3 => RType::Untyped,
+            4 => RType::Histogram,
+            _ => return None,
+        })
+    }
+    pub fn to_proto(self) -> proto::MetricType {
+        match self {
+            RType::Counter => proto::MetricType::COUNTER,
+            RType::Gauge => proto::MetricType::GAUGE,
+            RType::Summary => proto::MetricType::SUMMARY,
+            RType::Untyped => proto::MetricType::UNTYPED,
+            RType::Histogram => proto::MetricType::HISTOGRAM,
+        }
+    }
+    pub fn from_proto(t: proto::MetricType) -> RType {
+        match t {
+            proto::MetricType::COUNTER => RType::Counter,
+            proto::MetricType::GAUGE => RType::Gauge,
+            proto::MetricType::SUMMARY => RType::Summary,
+            proto::MetricType::UNTYPED => RType::Untyped,
+            proto::MetricType::HISTOGRAM => RType::Histogram,
+        }
+    }
+}
+
+/// Payloads a sample may carry (any subset may be present in a protobuf Metric).
+#[derive(Clone, Debug, Default)]
+pub struct RMetric {
+    pub labels: Vec<(String, String)>,
+    pub ts: Option<i64>,
+    pub counter: Option<f64>,
+    pub gauge: Option<f64>,
+    pub untyped: Option<f64>,
+    /// (count, sum, [(upper_bound, cumulative_count)])
+    pub histogram: Option<(u64, f64, Vec<(f64, u64)>)>,
+    /// (count, sum, [(quantile, value)])
+    pub summary: Option<(u64, f64, Vec<(f64, f64)>)>,
+}
+
+#[derive(Clone, Debug)]
+pub struct RFamily {
+    pub name: String,
+    pub help: String,
+    pub typ: RType,
+    pub metrics: Vec<RMetric>,
+}
+
+fn fb(v: f64) -> u64 {
+    if v.is_nan() {
+        0x7ff8_0000_0000_0000
+    } else {
+        v.to_bits()
+    }
+}
+
+impl RMetric {
+    /// Canonical comparison key; floats by bits. `nan_class`: identify all NaNs.
+    pub fn key(&self, nan_class: bool) -> String {
+        let f = |v: f64| if nan_class { fb(v) } else { v.to_bits() };
+        format!(
+            "L{:?} T{:?} C{:?} G{:?} U{:?} H{:?} S{:?}",
+            self.labels,
+            self.ts,
+            self.counter.map(f),
+            self.gauge.map(f),
+            self.untyped.map(f),
+            self.histogram.as_ref().map(|(c, s, b)| (*c, f(*s), b.iter().map(|(u, n)| (f(*u), *n)).collect::<Vec<_>>())),
+            self.summary.as_ref().map(|(c, s, q)| (*c, f(*s), q.iter().map(|(a, b)| (f(*a), f(*b))).collect::<Vec<_>>())),
+        )
+    }
+
+    pub fn to_proto(&self) -> proto::Metric {
+        let mut m = proto::Metric::default();
+        m.set_label(
+            self.labels
+                .iter()
+                .map(|(k, v)| {
+                    let mut lp = proto::LabelPair::default();
+                    lp.set_name(k.clone());
+                    lp.set_value(v.clone());
+                    lp
+                })
+                .collect(),
+        );
+        if let Some(t) = self.ts {
+            m.set_timestamp_ms(t);
+        }
+        if let Some(v) = self.counter {
+            let mut c = proto::Counter::default();
+            c.set_value(v);
+            m.set_counter(c);
+        }
+        if let Some(v) = self.gauge {
+            let mut c = proto::Gauge::default();
+            c.set_value(v);
+            m.set_gauge(c);
+        }
+        if let Some(v) = self.untyped {
+            let mut c = proto::Untyped::default();
+            c.set_value(v);
+            m.untyped = protobuf::MessageField::some(c);
+        }
+        if let Some((cnt, sum, b)) = &self.histogram {
+            let mut h = proto::Histogram::default();
+            h.set_sample_count(*cnt);
+            h.set_sample_sum(*sum);
+            h.set_bucket(
+                b.iter()
+                    .map(|(u, n)| {
+                        let mut x = proto::Bucket::default();
+                        x.set_upper_bound(*u);
+                        x.set_cumulative_count(*n);
+                        x
+                    })
+                    .collect(),
+            );
+            m.set_histogram(h);
+        }
+        if let Some((cnt, sum, q)) = &self.summary {
+            let mut s = proto::Summary::default();
+            s.set_sample_count(*cnt);
+            s.set_sample_sum(*sum);
+            s.set_quantile(
+                q.iter()
+                    .map(|(a, b)| {
+                        let mut x = proto::Quantile::default();
+                        x.set_quantile(*a);
+                        x.set_value(*b);
+                        x
+                    })
+                    .collect(),
+            );
+            m.set_summary(s);
+        }
+        m
+    }
+
+    pub fn from_proto(m: &proto::Metric) -> RMetric {
+        RMetric {
+            labels: m.get_label().iter().map(|lp| (lp.name().to_string(), lp.value().to_string())).collect(),
+            ts: m.timestamp_ms,
+            counter: m.counter.as_ref().map(|c| c.value()),
+            gauge: m.gauge.as_ref().map(|c| c.value()),
+            untyped: m.untyped.as_ref().map(|c| c.value()),
+            histogram: m.histogram.as_ref().map(|h| {
+                (
+                    h.get_sample_count(),
+                    h.get_sample_sum(),
+                    h.get_bucket().iter().map(|b| (b.upper_bound(), b.cumulative_count())).collect(),
+                )
+            }),
+            summary: m.summary.as_ref().map(|s| {
+                (
+                    s.sample_count(),
+                    s.sample_sum(),
+                    s.get_quantile().iter().map(|q| (q.quantile(), q.value())).collect(),
+                )
+            }),
+        }
+    }
+
+    pub fn to_json(&self) -> Value {
+        let f = crate::f64s;
+        json!({
+            "labels": self.labels, "ts": self.ts,
+            "counter": self.counter.map(f), "gauge": self.gauge.map(f), "untyped": self.untyped.map(f),
+            "histogram": self.histogram.as_ref().map(|(c,s,b)| json!({"count": c, "sum": f(*s), "buckets": b.iter().map(|(u,n)| json!([f(*u), n])).collect::<Vec<_>>()})),
+            "summary": self.summary.as_ref().map(|(c,s,q)| json!({"count": c, "sum": f(*s), "quantiles": q.iter().map(|(a,b)| json!([f(*a), f(*b)])).collect::<Vec<_>>()})),
+        })
+    }
+
+    pub fn from_json(v: &Value) -> RMetric {
+        let f = |x: &Value| crate::f64_from_s(x.as_str().unwrap());
+        RMetric {
+            labels: v["labels"].as_array().map(|a| a.iter().map(|p| (p[0].as_str().unwrap().to_string(), p[1].as_str().unwrap().to_string())).collect()).unwrap_or_default(),
+            ts: v["ts"].as_i64(),
+            counter: if v["counter"].is_null() { None } else { Some(f(&v["counter"])) },
+            gauge: if v["gauge"].is_null() { None } else { Some(f(&v["gauge"])) },
+            untyped: if v["untyped"].is_null() { None } else { Some(f(&v["untyped"])) },
+            histogram: if v["histogram"].is_null() { None } else {
+                let h = &v["histogram"];
+                Some((h["count"].as_u64().unwrap(), f(&h["sum"]), h["buckets"].as_array().unwrap().iter().map(|b| (f(&b[0]), b[1].as_u64().unwrap())).collect()))
+            },
+            summary: if v["summary"].is_null() { None } else {
+                let h = &v["summary"];
+                Some((h["count"].as_u64().unwrap(), f(&h["sum"]), h["quantiles"].as_array().unwrap().iter().map(|b| (f(&b[0]), f(&b[1]))).collect()))
+            },
+        }
+    }
+}
+
+impl RFamily {
+    pub fn to_proto(&self) -> proto::MetricFamily {
+        let mut mf = proto::MetricFamily::default();
+        mf.set_name(self.name.clone());
+        mf.set_help(self.help.clone());
+        mf.set_field_type(self.typ.to_proto());
+        mf.set_metric(self.metrics.iter().map(|m| m.to_proto()).collect());
+        mf
+    }
+
+    pub fn from_proto(mf: &proto::MetricFamily) -> RFamily {
+        RFamily {
+            name: mf.name().to_string(),
+            help: mf.help().to_string(),
+            typ: RType::from_proto(mf.get_field_type()),
+            metrics: mf.get_metric().iter().map(RMetric::from_proto).collect(),
+        }
+    }
+
+    pub fn key(&self, nan_class: bool) -> String {
+        format!(
+            "{:?} {:?} {:?} [{}]",
+            self.name,
+            self.help,
+            self.typ,
+            self.metrics.iter().map(|m| m.key(nan_class)).collect::<Vec<_>>().join("; ")
+        )
+    }
+
+    pub fn to_json(&self) -> Value {
+        json!({"name": self.name, "help": self.help, "type": self.typ.text(), "metrics": self.metrics.iter().map(|m| m.to_json()).collect::<Vec<_>>()})
+    }
+
+    pub fn from_json(v: &Value) -> RFamily {
+        let typ = [RType::Counter, RType::Gauge, RType::Summary, RType::Untyped, RType::Histogram]
+            .into_iter()
+            .find(|t| t.text() == v["type"].as_str().unwrap())
+            .unwrap();
+        RFamily {
+            name: v["name"].as_str().unwrap().to_string(),
+            help: v["help"].as_str().unwrap().to_string(),
+            typ,
+            metrics: v["metrics"].as_array().unwrap().iter().map(RMetric::from_json).collect(),
+        }
+    }
+}
+
+// ---------------------------------------------------------------- generator
+
+pub const STRS: [&str; 13] = [
+    "", "a", " ", "\\", "\"", "\n", "\r", "\\n", "a\"b\\c\nd", "\u{e9}", "\u{1F600}", "# HELP", "} 1",
+];
+
+pub fn floats() -> Vec<f64> {
+    vec![
+        0.0,
+        -0.0,
+        1.0,
+        -1.5,
+        0.1 + 0.2,
+        1e300,
+        5e-324,
+        9007199254740993.0,
+        f64::INFINITY,
+        f64::NEG_INFINITY,
+        f64::NAN,
+    ]
+}
+
+pub const TIMESTAMPS: [Option<i64>; 5] = [None, Some(0), Some(1), Some(-1), Some(i64::MAX)];
+pub const COUNTS: [u64; 3] = [0, 1, 9007199254740993];
+
+fn sample(typ: RType, v: f64, aux: f64, shape: usize) -> RMetric {
+    let mut m = RMetric::default();
+    match typ {
+        RType::Counter => m.counter = Some(v),
+        RType::Gauge => m.gauge = Some(v),
+        RType::Untyped => m.untyped = Some(v),
+        RType::Histogram => {
+            let b = match shape % 4 {
+                0 => vec![],
+                1 => vec![(aux, 1)],
+                2 => vec![(aux, 1), (f64::INFINITY, 2)],
+                _ => vec![(-1.0, 0), (aux, COUNTS[2])],
+            };
+            m.histogram = Some((COUNTS[shape % 3], v, b));
+        }
+        RType::Summary => {
+            let q = match shape % 3 {
+                0 => vec![],
+                1 => vec![(aux, v)],
+                _ => vec![(0.5, aux), (aux, v)],
+            };
+            m.summary = Some((COUNTS[shape % 3], v, q));
+        }
+    }
+    m
+}
+
+/// The bounded family space shared by the exposition checks. `level` 0 = quick,
+/// 1 = thorough. Families have valid names; everything else is adversarial.
+pub fn gen_families(level: usize, types: &[RType]) -> Vec<RFamily> {
+    let fl = floats();
+    let mut out = vec![];
+    for &typ in types {
+        // every float in every float slot, every shape
+        for &v in &fl {
+            for &aux in &fl {
+                for shape in 0..12 {
+                    if !matches!(typ, RType::Histogram | RType::Summary) && (shape > 0 || aux.to_bits() != 0) {
+                        continue;
+                    }
+                    out.push(RFamily { name: "m".into(), help: "h".into(), typ, metrics: vec![sample(typ, v, aux, shape)] });
+                }
+            }
+        }
+        // label shapes: 0..2 pairs with every assignment from STRS
+        for a in STRS {
+            let mut m = sample(typ, 1.0, 0.5, 1);
+            m.labels = vec![("l".into(), a.to_string())];
+            out.push(RFamily { name: "m_1".into(), help: a.to_string(), typ, metrics: vec![m] });
+            for b in STRS {
+                let mut m = sample(typ, 1.0, 0.5, 2);
+                m.labels = vec![("l".into(), a.to_string()), ("l2".into(), b.to_string())];
+                let mut m2 = sample(typ, 2.0, 0.25, 1);
+                m2.labels = vec![("l".into(), b.to_string()), ("l2".into(), a.to_string())];
+                out.push(RFamily { name: "a:b".into(), help: format!("{}{}", a, b), typ, metrics: vec![m, m2] });
+            }
+        }
+        if level > 0 {
+            for a in STRS {
+                for b in STRS {
+                    for c in STRS {
+                        let mut m = sample(typ, 1.0, 0.5, 1);
+                        m.labels = vec![("x".into(), a.to_string()), ("y".into(), b.to_string()), ("z".into(), c.to_string())];
+                        out.push(RFamily { name: "m3".into(), help: format!("{}{}{}", c, a, b), typ, metrics: vec![m] });
+                    }
+                }
+            }
+        }
+        // timestamps
+        for ts in TIMESTAMPS {
+            for &v in &fl {
+                let mut m = sample(typ, v, 2.0, 2);
+                m.ts = ts;
+                m.labels = vec![("l".into(), "v".into())];
+                let mut m0 = sample(typ, v, 2.0, 1);
+                m0.ts = ts;
+                out.push(RFamily { name: "_t:9".into(), help: "".into(), typ, metrics: vec![m0, m] });
+            }
+        }
+    }
+    out
+}
+
+/// A small basis used for multi-family framing (all ordered pairs / triples).
+pub fn basis_families() -> Vec<RFamily> {
+    let mut b = vec![];
+    for (i, typ) in [RType::Counter, RType::Gauge, RType::Histogram, RType::Summary].into_iter().enumerate() {
+        let mut m = sample(typ, 1.0 + i as f64, 0.5, 2);
+        m.labels = vec![("l".into(), STRS[8].to_string())];
+        b.push(RFamily { name: format!("f{}", i), help: STRS[(i * 5) % STRS.len()].to_string(), typ, metrics: vec![m] });
+    }
+    let mut m = sample(RType::Counter, f64::NAN, 0.0, 0);
+    m.ts = Some(-1);
+    b.push(RFamily { name: "f4".into(), help: "".into(), typ: RType::Counter, metrics: vec![m.clone(), m] });
+    b.push(RFamily { name: "f5".into(), help: "\n".into(), typ: RType::Gauge, metrics: vec![sample(RType::Gauge, -0.0, 0.0, 0)] });
+    b
+}
